@@ -11,7 +11,8 @@
    sub_ty                   = the order bool < int < float, String alone *)
 From Coq Require Import ZArith QArith List Bool.
 From RV Require Import Base.Wire Base.Text Lang.PyAst Lang.PySem Lang.Infer Lang.InferGuard Lang.InferSpec
-  Lang.InferComp Lang.Decl Lang.DeclSpec Lang.FnSpec Lang.AliasSpec Proofs.InferP Proofs.JoinP Proofs.DeclP Proofs.FnP Proofs.CompP.
+  Lang.InferComp Lang.Decl Lang.DeclSpec Lang.FnSpec Lang.AliasSpec Lang.StmtRef Lang.CtlSpec
+  Proofs.InferP Proofs.JoinP Proofs.DeclP Proofs.FnP Proofs.CompP Proofs.CtlP.
 Import ListNotations.
 Open Scope Z_scope.
 
@@ -411,3 +412,125 @@ Example C02_single_call_variant :
     selected_functions (p_fe ps) = [(z_blend, d)] /\ tlookup z_w (fd_locals d) = Some CFloat.
 Proof. exact single_call_variant. Qed.
 Print Assumptions C02_single_call_variant.
+
+(* ---------------------------------------------------------------- control flow: every path, every scope
+   exec_stmt / exec_block / exec_prog orc ...  = the reference (CPython) execution of the statement syntax of Lang/Decl.v
+                            along the path the ORACLE orc picks (branch taken by every if, passes of every while, n of every
+                            range(n)); it returns the trace of stores: TAssign x v (a value bound to x), TLoopVar i v (a value
+                            of a for target, which lives in the `int i` of the for header), TReturn v (Lang/StmtRef.v)
+   script_items pre main  = the script  <statements at column 0, with their nested blocks> ; while True: <main>
+   script_guard C pre main = with L the var_types table at the END of the parse: every store x = e (x op= e, x = [comprehension])
+                            is inside the expression guard both under the var_types the transpiler holds at that line and under L,
+                            both give the label L holds for x, x op= e has x declared, and a name hoisted out of a loop has no
+                            other C type in the shared promotion table (promo_ok)
+   ev_decl D e            = the store e is held by the C type D declares for its name *)
+
+(* scripts with if / elif / else, while, for at any depth, then any number of passes of the main loop: on EVERY path, every value
+   ever stored into a name is held by the C type the sketch declares for it (a global, or a local of loop()) *)
+Theorem C02_decl_covers_script_partial :
+  forall C pre main ps orc orc1 rho tr ret,
+    script_guard C pre main = true ->
+    run_items C (script_items pre main) = Some ps ->
+    exec_prog orc pre main = Ok (orc1, rho, tr, ret) ->
+    Forall (ev_decl (p_loop ps ++ p_globals ps)) tr.
+Proof. exact script_covers. Qed.
+Print Assumptions C02_decl_covers_script_partial.
+
+(* a = 3 ; if ..: x = a * 2.5 else: x = 0.5 ; k = 0 ; while ..: y = x + k ; k = k + 1 ; for i in range(..): z = i * 2
+   while True: r = a + 1 ; if ..: w = r * 0.5 *)
+Example C02_decl_covers_script_nonvacuous :
+  script_guard None demo_pre demo_main = true /\
+  (exists ps, run_items None (script_items demo_pre demo_main) = Some ps /\
+              p_globals ps = [(w_a, CInt); (w_x, CFloat); (w_k, CInt); (w_y, CFloat); (w_z, CInt)] /\
+              p_loop ps = [(w_r, CInt); (w_w, CFloat)]) /\
+  (exists rho tr, exec_prog demo_oracle demo_pre demo_main = Ok ([], rho, tr, false) /\
+                  In (TAssign w_y (VFloat (17 # 2))) tr /\ In (TAssign w_w (VFloat 2)) tr /\ In (TLoopVar w_i (VInt 1)) tr).
+Proof. exact demo_script_nonvacuous. Qed.
+Print Assumptions C02_decl_covers_script_nonvacuous.
+
+(* the boundary: the guard excludes the refuted shapes - first assignment of another label, x op= e changing the label,
+   branches that disagree, the flow-insensitive label table, a name read before the line that types it *)
+Example C02_script_guard_excludes_refuted_witnesses :
+  forallb (fun p => negb (script_guard None p BNil))
+          [first_assign_script; aug_script; branch_script; flow_script; early_read_script] = true.
+Proof. exact script_guard_boundary. Qed.
+Print Assumptions C02_script_guard_excludes_refuted_witnesses.
+
+(* refuted: a name that is READ, in text order, before the line that types it is labelled int at that read:
+   k = 0 ; while k < 2: (if k > 0: b = z) ; z = 2.5 ; k = k + 1   declares int b; on the second pass Python stores 2.5 *)
+Theorem C02_read_before_typed_refuted :
+  exists ps rho tr,
+    run_items None (script_items early_read_script BNil) = Some ps /\
+    exec_prog early_read_oracle early_read_script BNil = Ok ([], rho, tr, false) /\
+    In (TAssign w_b (VFloat (5 # 2))) tr /\
+    tlookup w_b (p_loop ps ++ p_globals ps) = Some CInt /\
+    ~ crepr CInt (VFloat (5 # 2)) /\ c_store CInt (VFloat (5 # 2)) = Some (VInt 2).
+Proof. exact read_before_typed. Qed.
+Print Assumptions C02_read_before_typed_refuted.
+
+(* the two halves of the proof, for every instance of the user-function step (S, call) that answers like a fixed function table:
+   (M) the declaration bookkeeping keeps a block state well formed with respect to the final labels L - var_types is within L,
+       labelled = declared, every labelled name is declared with the C type of its label, nothing is declared twice;
+   (S) on every path every stored value is held by the label L gives the name *)
+Theorem C02_hoisting_keeps_declarations_coherent_partial :
+  forall (S : Type) call C F A (Inv : S -> Prop),
+    (forall d sp G f sg, Inv (fst sp) ->
+       Inv (fst (fst (call d sp G f sg))) /\ snd (call d sp G f sg) = resolve_call F A f sg) ->
+    forall x L outer base s st s1 st1,
+      Inv s -> wf L outer base st -> gd_stmt S call C F A L s st x = true ->
+      run_stmt S call C s st x = Some (s1, st1) ->
+      Inv s1 /\ wf L outer base st1.
+Proof. exact hoisting_keeps_declarations_coherent. Qed.
+Print Assumptions C02_hoisting_keeps_declarations_coherent_partial.
+
+Theorem C02_stored_values_within_final_labels_partial :
+  forall (S : Type) call C F A (Inv : S -> Prop),
+    (forall d sp G f sg, Inv (fst sp) ->
+       Inv (fst (fst (call d sp G f sg))) /\ snd (call d sp G f sg) = resolve_call F A f sg) ->
+    forall x L outer base s st s1 st1 orc rho orc1 rho1 tr ret,
+      Inv s -> wf L outer base st -> gd_stmt S call C F A L s st x = true ->
+      run_stmt S call C s st x = Some (s1, st1) ->
+      env_lab L rho -> exec_stmt orc rho x = Ok (orc1, rho1, tr, ret) ->
+      env_lab L rho1 /\ Forall (ev_ok L (a_rets (st_acc st1))) tr.
+Proof. exact stored_values_within_final_labels. Qed.
+Print Assumptions C02_stored_values_within_final_labels_partial.
+
+(* ---------------------------------------------------------------- function bodies, every shape
+   fn_guard F A C cur params sg body = the same guard for the body parsed for call signature sg, plus: the names visible when the
+                            body starts keep their label to the end (in particular no parameter is re-labelled)
+   fn_ev d outer e        = the store e is held by what the emitted variant d declares: a local (fd_locals), a parameter / global
+                            (typed from the label it has when the body starts), the declared return type for a returned value *)
+Theorem C02_function_body_covers_partial :
+  forall C fe cur name params body sg fe1 p1 final d orc rho orc1 rho1 tr ret,
+    parse_function_core C fe cur name (mk_fsrc params None body) (Some sg) = Some (fe1, p1, final) ->
+    fn_guard (fn_table fe name) (fe_alias fe) C cur params sg body = true ->
+    env_lab (d_types (fn_ctx cur params sg)) rho ->
+    sig_lookup final (get_or [] (tlookup name (fe_defs fe1))) = Some d ->
+    exec_block orc rho body = Ok (orc1, rho1, tr, ret) ->
+    Forall (fn_ev d (lab_decls (d_types (fn_ctx cur params sg)))) tr /\
+    (forall p c, In (p, c) (fd_params d) -> c = cpp_type (tget (d_types (fn_ctx cur params sg)) p)).
+Proof. exact function_body_covers. Qed.
+Print Assumptions C02_function_body_covers_partial.
+
+(* def f(p, q): w = p * 2 ; if ..: return w ; for i in range(..): (if ..: return q + 0.5) ; w = w + i ; return w
+   called as f(3, 0.5): float f(int p, float q) with int w; the path through the inner return yields 1.0 *)
+Example C02_function_body_nonvacuous :
+  exists fe1 d rho1 tr,
+    parse_function_core None fenv0 fresh_cur w_x (mk_fsrc fparams None fbody) (Some fsig) = Some (fe1, None, fsig) /\
+    fn_guard (fn_table fenv0 w_x) (fe_alias fenv0) None fresh_cur fparams fsig fbody = true /\
+    env_lab (d_types (fn_ctx fresh_cur fparams fsig)) frho /\
+    sig_lookup fsig (get_or [] (tlookup w_x (fe_defs fe1))) = Some d /\
+    fd_ret d = CFloat /\ fd_locals d = [(w_w, CInt)] /\ fd_params d = [(w_p, CInt); (w_q, CFloat)] /\
+    exec_block foracle frho fbody = Ok ([], rho1, tr, true) /\
+    In (TReturn (VFloat 1)) tr /\ In (TAssign w_w (VInt 6)) tr.
+Proof. exact demo_function_nonvacuous. Qed.
+Print Assumptions C02_function_body_nonvacuous.
+
+(* the boundary: the body of g of C02_loop_hoist_stale_table_refuted is outside the guard exactly when the shared promotion
+   table holds another C type for its loop-hoisted local; a body that re-labels its parameter is outside *)
+Example C02_fn_guard_boundary :
+  fn_guard [(w_x, FVariants [])] [] None stale_cur [(w_p, None)] [TInt] gbody = false /\
+  fn_guard [(w_x, FVariants [])] [] None fresh_cur [(w_p, None)] [TInt] gbody = true /\
+  fn_guard [(w_x, FVariants [])] [] None fresh_cur [(w_p, None)] [TFloat] relabel_body = false.
+Proof. exact fn_guard_boundary. Qed.
+Print Assumptions C02_fn_guard_boundary.
